@@ -451,6 +451,28 @@ pub static OPS: &[OpDef] = &[
         o.f64(i.a.geodesic_area_signed());
         o.f64(i.a.chamberlain_duquette_signed_area());
     }),
+    op!("geodesic_aggregates", ANY, false, false, |i, o| {
+        // the same members squeezed into valid lon/lat, so that the geodesic folds are finite
+        let ll = |c: &Coord<f64>| Coord { x: (c.x * 0.37) % 170.0, y: (c.y * 0.23) % 80.0 };
+        let mp = MultiPolygon::new(
+            i.a.0.iter().map(|p| Polygon::new(LineString::new(p.exterior().0.iter().map(ll).collect()), p.interiors().iter().map(|r| LineString::new(r.0.iter().map(ll).collect())).collect())).collect(),
+        );
+        o.f64(mp.geodesic_area_signed());
+        o.f64(mp.geodesic_area_unsigned());
+        o.f64(mp.geodesic_perimeter());
+        let (p, a) = mp.geodesic_perimeter_area_signed();
+        o.f64(p);
+        o.f64(a);
+        o.f64(mp.chamberlain_duquette_unsigned_area());
+        let ml = MultiLineString::new(i.mls.0.iter().map(|l| LineString::new(l.0.iter().map(ll).collect())).collect());
+        o.f64(Geodesic.length(&ml));
+        o.f64(Haversine.length(&ml));
+        o.f64(Rhumb.length(&ml));
+        let gc = GeometryCollection::new_from(vec![Geometry::MultiPolygon(mp.clone()), Geometry::MultiLineString(ml)]);
+        o.f64(gc.geodesic_area_signed());
+        w_opt_pt(o, &mp.centroid());
+        o.f64(mp.unsigned_area());
+    }),
     // ---- geodesic family (first use initialises the process-wide LazyLock)
     op!("geodesic", POINT_FAMS, false, false, |i, o| {
         let ps: Vec<Point<f64>> = i.pts.0.iter().take(12).map(lonlat).collect();
